@@ -87,7 +87,7 @@ def file_digest(p):
 
 
 def codegen(pid, spec, ov):
-    tdir = os.path.join(V, '.cache', 'kt', pid)
+    tdir = os.path.join(V, '.cache', 'kt', pid + os.environ.get('VERIF_KT_SUFFIX', ''))
     os.makedirs(tdir, exist_ok=True)
     for d in glob.glob(os.path.join(tdir, 'kani', '*', 'debug', 'build', 'calamine', '*')):
         shutil.rmtree(d, ignore_errors=True)
@@ -313,7 +313,7 @@ def shadow_home(cfg):
 def replay(pid, spec, ov, h, cfg):
     """Native replay via Kani concrete playback. Returns (reproduced: bool|None, path, log)."""
     name = h['pretty_name'].split('::')[-1]
-    tdir = os.path.join(V, '.cache', 'kt', pid + '-replay')
+    tdir = os.path.join(V, '.cache', 'kt', pid + os.environ.get('VERIF_KT_SUFFIX', '') + '-replay')
     env = dict(ENV)
     home = shadow_home(cfg)
     if not os.path.isdir(home):
